@@ -19,6 +19,8 @@ REPO = os.environ.get('VERIF_REPO', '/repo')
 
 # unit -> function -> list of replays
 REGISTRY = {
+    # pseudo-unit: SortedWritesTable / Database through the public API against a keyed-map model (C16 thorough tier only)
+    'tableapi': {'*': [dict(kind='harness', name='table_api'), dict(kind='harness', name='disp_clear')]},
     # pseudo-unit: table collision paths that no verifier reaches (C05 thorough tier only)
     'tablepaths': {'*': [dict(kind='egg', file='replays/findings/f2_parallel_insert_drops_merge.egg', args=('-j', '4'), env={'EGGLOG_PARALLEL_TABLE_OP_CUTOFF': '0'}),
                          dict(kind='egg', file='replays/findings/f2_parallel_insert_drops_merge.egg', args=('-j', '1'))]},
